@@ -105,20 +105,20 @@ func (e *Enc) encodeTop(fn *ssa.Function, fc *FuncContract, name string) {
 	// receiver of a method is non-nil (callers are checked for that in safe mode)
 	if fn.Signature.Recv() != nil && len(fr.params) > 0 && fr.params[0].S == "Ref" && !nilSafeMethod(fn) {
 		e.assume(not(eq(fr.params[0].T, "nil")))
-		e.assume(sel(e.get(st, e.allocComp()), fr.params[0].T))
+		e.assume(isAlloc(e.get(st, e.allocComp()), fr.params[0].T))
 	}
 	// free variables of closures verified on their own: symbolic cells
 	for _, fv := range fn.FreeVars {
 		n := "fv_" + sanitize(fv.Name())
 		e.declare(n, "Ref")
 		e.assume(not(eq(n, "nil")))
-		e.assume(sel(e.get(st, e.allocComp()), n))
+		e.assume(isAlloc(e.get(st, e.allocComp()), n))
 		v := Val{T: n, S: "Ref", Typ: fv.Type()}
 		fr.binds = append(fr.binds, v)
 	}
 	e.assume("(> " + e.get(st, e.clockComp()) + " 0)")
 	// convention: nil counts as allocated, so "reference is nil or allocated" is a unit fact
-	e.assume(sel(e.get(st, e.allocComp()), "nil"))
+	e.assume("(>= " + e.get(st, e.allocComp()) + " 0)")
 	// no monitor lock is held on entry (unless the contract says "holds")
 	e.assume(eq(e.get(st, e.heldComp()), "((as const (Array Ref Bool)) false)"))
 	entry := st.clone()
@@ -278,6 +278,32 @@ func (e *Enc) encodeTop(fn *ssa.Function, fc *FuncContract, name string) {
 	}
 	if !fc.NoFrame && (fc.HasMod || len(fc.Ensures) > 0) {
 		e.checkFrame(fr, fc, entry, exit.st, exit.reach)
+	}
+	// preserves clauses must be reflexive and transitive (they are assumed across an unknown
+	// number of calls made by external higher-order functions such as sort.Slice)
+	for i, c := range fc.Preserves {
+		lbl := c.Label
+		if lbl == "" {
+			lbl = fmt.Sprint(i + 1)
+		}
+		ctx := e.frameCtx(fr, entry, entry, false)
+		if sv, err := e.evalSpec(c.Expr, ctx); err == nil {
+			e.addObl("preserves", lbl+":reflexive", "true", sv.T, fn.Pos(), c.Text)
+		}
+		top := newModSet()
+		top.Top = true
+		b := entry.clone()
+		e.havocMods(fr, b, top, false)
+		cst := b.clone()
+		e.havocMods(fr, cst, top, false)
+		ab, err1 := e.evalSpec(c.Expr, e.frameCtx(fr, b, entry, false))
+		bc, err2 := e.evalSpec(c.Expr, e.frameCtx(fr, cst, b, false))
+		ac, err3 := e.evalSpec(c.Expr, e.frameCtx(fr, cst, entry, false))
+		if err1 != nil || err2 != nil || err3 != nil {
+			e.errorf("%s: preserves %s: %v %v %v", name, c.Label, err1, err2, err3)
+			continue
+		}
+		e.addObl("preserves", lbl+":transitive", "true", implies(and(ab.T, bc.T), ac.T), fn.Pos(), c.Text)
 	}
 }
 
